@@ -188,6 +188,12 @@ func cmpFactsAt(b *ssa.BasicBlock) []cmpFact {
 
 // lenAtLeast: do the facts establish len(s) >= n (n >= 1)?
 func lenFactsBound(facts []cmpFact, s ssa.Value) (min int64, eqTo []ssa.Value) {
+	return lenFactsBoundIn(facts, s, nil)
+}
+
+// lenFactsBoundIn: like lenFactsBound; a bound that is a parameter of the enclosing function counts with the
+// constant passed at call site `ctx` (or, without a context, the smallest constant passed at any call site).
+func lenFactsBoundIn(facts []cmpFact, s ssa.Value, ctx *ssa.Call) (min int64, eqTo []ssa.Value) {
 	min = 0
 	neq := map[int64]bool{}
 	defer func() {
@@ -207,7 +213,11 @@ func lenFactsBound(facts []cmpFact, s ssa.Value) (min int64, eqTo []ssa.Value) {
 		if !ok || !sameVal(ls, s) {
 			continue
 		}
-		if k, ok := constInt(stripConvInt(R)); ok {
+		k, ok := constInt(stripConvInt(R))
+		if !ok && (op == token.GTR || op == token.GEQ) {
+			k, ok = paramLowerBound(stripConvInt(R), ctx)
+		}
+		if ok {
 			switch op {
 			case token.GTR:
 				if k+1 > min {
@@ -285,4 +295,45 @@ func itoa(n int64) string {
 		return "-" + string(b)
 	}
 	return string(b)
+}
+
+// paramLowerBound: smallest value parameter v can have: the constant passed at call site ctx,
+// or the minimum over all (constant) arguments at the static call sites of its function.
+func paramLowerBound(v ssa.Value, ctx *ssa.Call) (int64, bool) {
+	prm, ok := v.(*ssa.Parameter)
+	p := theProg
+	if !ok || p == nil {
+		return 0, false
+	}
+	fn := prm.Parent()
+	idx := -1
+	for i, q := range fn.Params {
+		if q == prm {
+			idx = i
+		}
+	}
+	if idx < 0 {
+		return 0, false
+	}
+	if ctx != nil && p.unbound(staticCallee(ctx)) == fn && idx < len(ctx.Common().Args) {
+		return constInt(stripConvInt(ctx.Common().Args[idx]))
+	}
+	sites := p.callers[fn]
+	if len(sites) == 0 || p.asyncValueUsed(fn) {
+		return 0, false
+	}
+	min := int64(1 << 40)
+	for _, s := range sites {
+		if idx >= len(s.Common().Args) {
+			return 0, false
+		}
+		k, ok := constInt(stripConvInt(s.Common().Args[idx]))
+		if !ok {
+			return 0, false
+		}
+		if k < min {
+			min = k
+		}
+	}
+	return min, true
 }
